@@ -21,6 +21,7 @@ OBLIGATIONS = ["NiftyVerif.C13." + t for t in (
     "cov_append", "cov_map_mul", "scaling_cov", "scaling_inv_cov", "diag_cov", "sandwich_cov", "sandwich_inv_cov",
     "sum_cov", "adapter_sampler", "enabler_cov", "scaling_refuses_iff", "diag_refuses_iff", "sum_refuses_iff",
     "blockdiag_cov", "scaling_multi_cov", "covC_uniform",
+    "seqAll_ok_mem", "seqAll_zip_ok_mem", "signedSum_zip_nulls", "den_adapter'", "den_scaling'", "sampler_sound",
 )]
 RULE = ("covariance scripts (scaling, diagonal incl. partial-space, sandwich over random buns from the C01 generator, "
         "block-diagonal, sums, adjoint/inverse adapters, InversionEnabler, SamplingEnabler) with real or complex sampling "
